@@ -5,6 +5,8 @@ import AfkakProofs.Consumer.Inv1
 namespace Afkak.Proofs.Consumer
 open Afkak.Consumer Afkak.Monitor Afkak.Consts
 
+variable [EnvHyp]
+
 /-- The re-entrant API one level down preserves the invariant. -/
 structure OpsPres (cfg : Cfg) (inner : Ops) : Prop where
   stop : Pres cfg inner.stop
@@ -46,7 +48,8 @@ theorem shutdownFinish_pres (r : Option Fail) : Pres cfg (shutdownFinish inner r
   unfold shutdownFinish
   simp only []
   have h1 : Good cfg s (nestedStop inner { s with shutdownD := false }) := (nestedStop_pres hin).step (by leaf hx)
-  have h2 : Good cfg s { nestedStop inner { s with shutdownD := false } with shuttingDown := false } := by leaf h1
+  generalize nestedStop inner { s with shutdownD := false } = s1 at h1 ⊢
+  have h2 : Good cfg s { s1 with shuttingDown := false } := by leaf h1
   split
   · exact (crash_pres cfg _).step h2
   · split
